@@ -474,16 +474,17 @@ def flushGroup (s : St) : St :=
     x.2.1 ++ (match x.2.2 with
       | some ob => s!"/{ob.seq}/{hex ob.nid}/{hex ob.sig}/{showPairs ob.pairs}"
       | none => "")
+  let gbuf := s.groupBuf
   let s := { s with group := [], groupBuf := "" }
   if s.groupExpectOpen then s else
   let s := match find "k256", find "libsecp" with
     | some a, some b =>
-      if sigOf a == sigOf b then s.chk else s.prop "C11" "k256_eq_libsecp" s!"buf={s.groupBuf} k256={a.2.1} libsecp={b.2.1}"
+      if sigOf a == sigOf b then s.chk else s.prop "C11" "k256_eq_libsecp" s!"buf={gbuf} k256={a.2.1} libsecp={b.2.1}"
     | _, _ => s
   let s := match find "k256", find "comb" with
     | some a, some c =>
       if a.2.1 == "ok" then
-        (if sigOf a == sigOf c then s.chk else s.prop "C11" "comb_eq_k256_on_secp" s!"buf={s.groupBuf}")
+        (if sigOf a == sigOf c then s.chk else s.prop "C11" "comb_eq_k256_on_secp" s!"buf={gbuf}")
       else s
     | _, _ => s
   let s := match find "ed", find "comb", find "k256" with
@@ -492,9 +493,9 @@ def flushGroup (s : St) : St :=
         | some ob => (Map.lookup ob.pairs kSecp).isSome
         | none => false
       let s := if e.2.1 == "ok" && !hasSecp then
-          (if sigOf e == sigOf c then s.chk else s.prop "C11" "comb_eq_ed_on_ed" s!"buf={s.groupBuf}")
+          (if sigOf e == sigOf c then s.chk else s.prop "C11" "comb_eq_ed_on_ed" s!"buf={gbuf}")
         else s
-      if c.2.1 == "ok" && a.2.1 != "ok" && e.2.1 != "ok" then s.prop "C11" "comb_accepts_only_what_a_scheme_accepts" s!"buf={s.groupBuf}"
+      if c.2.1 == "ok" && a.2.1 != "ok" && e.2.1 != "ok" then s.prop "C11" "comb_accepts_only_what_a_scheme_accepts" s!"buf={gbuf}"
       else s
     | _, _, _ => s
   -- isolation
@@ -502,7 +503,7 @@ def flushGroup (s : St) : St :=
     | some a, some e =>
       if a.2.1 == "ok" && e.2.1 == "ok" then
         -- both accept only if the record carries both keys and both signatures verify: impossible with one signature
-        s.prop "C11" "schemes_isolated" s!"buf={s.groupBuf}"
+        s.prop "C11" "schemes_isolated" s!"buf={gbuf}"
       else s
     | _, _ => s
   s
